@@ -526,10 +526,25 @@ func rename(a *ref.ASpec, mapping map[string]string) *ref.ASpec {
 	return b
 }
 
+// nodeDocs: what a node's doc may say
+var nodeDocs = []string{
+	"Waits for a coin.",
+	"go on when n > 3",
+	"when a < b & b > c, then <b>stop</b>",
+	"A long explanation that runs over forty characters. Then a second sentence follows.",
+	"A long explanation without any sentence end that runs well over the forty characters",
+	"\"quoted\" and 'single' and a \\ backslash",
+	"line one\nline two -> three",
+	strings.Repeat("x", 90),
+	strings.Repeat("é", 45) + ". " + "more",
+	"]; } digraph",
+	"&lt;already escaped&gt; &amp; #quot;",
+}
+
 func Run(cfg fw.Config, rec *fw.Rec) {
 	log.SetOutput(io.Discard)
-	rec.Rule = "generated specs (native and source actions, guards, missing / @variable / empty targets, orphans, terminal nodes, empty and absent branch lists, self-loops, parallel branches to one target; with and without the automatic error node) in two strata judged separately: identifier-like node names, and hostile names (spaces, quotes, ->, <, >, &, %, newlines, unicode, keywords; also pairs of names that differ only in a character and its escaped spelling, such as a\"b and a#quot;b); tools.Analyze is compared with a reference graph analysis, tools.Dot output is tokenised as DOT (ids, quoted strings, nestable HTML strings, attribute lists, ->) and tools.Mermaid output as a flowchart, and node / edge multisets are compared with the spec graph; a third of the specs are also rendered with five (from, to) transitions to highlight (existing nodes, start, empty, unknown names), which must not change the node and edge multisets; a fifth of the specs are also analysed and rendered before they are compiled, with their body-less nodes nil as a document loader leaves them; tools.RenderSpecPage must return without error with one table row per node and per branch; non-trivial = spec with >= 2 nodes and >= 1 branch; distinct by spec"
-	rec.Required = []string{"plain_analysis_ok", "plain_dot_ok", "plain_mermaid_ok", "plain_html_ok", "lookalike_names_kept_apart", "rendered_with_a_transition_to_highlight", "uncompiled_specs_with_bodyless_nodes_rendered", "native_action_rendered", "missing_target_rendered", "variable_target_rendered", "parallel_branches", "self_loop"}
+	rec.Rule = "generated specs (native and source actions, guards, missing / @variable / empty targets, orphans, terminal nodes, empty and absent branch lists, self-loops, parallel branches to one target; with and without the automatic error node) in two strata judged separately: identifier-like node names, and hostile names (spaces, quotes, ->, <, >, &, %, newlines, unicode, keywords; also pairs of names that differ only in a character and its escaped spelling, such as a\"b and a#quot;b); tools.Analyze is compared with a reference graph analysis, tools.Dot output is tokenised as DOT (ids, quoted strings, nestable HTML strings, attribute lists, ->) and tools.Mermaid output as a flowchart, and node / edge multisets are compared with the spec graph; a third of the specs are also rendered with five (from, to) transitions to highlight (existing nodes, start, empty, unknown names), which must not change the node and edge multisets; a fifth of the specs carry documentation strings on the spec and its nodes (with <, >, &, quotes, newlines, long runs without a space or sentence end, DOT punctuation); a fifth of the specs are also analysed and rendered before they are compiled, with their body-less nodes nil as a document loader leaves them; tools.RenderSpecPage must return without error with one table row per node and per branch; non-trivial = spec with >= 2 nodes and >= 1 branch; distinct by spec"
+	rec.Required = []string{"plain_analysis_ok", "plain_dot_ok", "plain_mermaid_ok", "plain_html_ok", "lookalike_names_kept_apart", "rendered_with_a_transition_to_highlight", "uncompiled_specs_with_bodyless_nodes_rendered", "specs_with_node_docs", "native_action_rendered", "missing_target_rendered", "variable_target_rendered", "parallel_branches", "self_loop"}
 	rec.Assume = []string{"DOT and Mermaid subsets as emitted by the tools (the tokenizers accept what Graphviz / Mermaid accept for these constructs)", "the hostile-name stratum is judged separately so a finding there cannot mask the plain stratum"}
 	n := cfg.Pick(6000, 1000000)
 	fw.Parallel(cfg.Workers, n, func(w, i int) {
@@ -587,8 +602,21 @@ func Run(cfg fw.Config, rec *fw.Rec) {
 		if err != nil {
 			return
 		}
+		// documentation strings are text: whatever they say, the renderings stay well-formed
+		var docs map[string]string
+		if i%5 == 2 {
+			docs = map[string]string{}
+			for nm, n := range spec.Nodes {
+				if n != nil && r.Intn(3) > 0 {
+					n.Doc = nodeDocs[r.Intn(len(nodeDocs))]
+					docs[nm] = n.Doc
+				}
+			}
+			spec.Doc = nodeDocs[r.Intn(len(nodeDocs))]
+			rec.Bucket("specs_with_node_docs")
+		}
 		want, extra := specGraph(spec)
-		replay := map[string]interface{}{"spec": a, "native": native, "stratum": stratum}
+		replay := map[string]interface{}{"spec": a, "native": native, "stratum": stratum, "node_docs": docs}
 		ok := true
 		// analysis
 		var an *tools.SpecAnalysis
